@@ -1049,6 +1049,56 @@ def evaluate_state(ctx, res, data):
     return sum(len(h['steps']) + len(h['probes']) for h in data['histories'])
 
 
+def evaluate_listen(ctx, res, data):
+    """the listeners of GET /listen (real body, run by the state worker): delivered event types vs model and specification"""
+    if not data or 'listen' not in data:
+        return 0
+    lis = data['listen']
+    if 'error' in lis:
+        res['tie_failures'].append('listen phase: ' + lis['error'])
+        return 0
+    cases = []
+    for c in lis['cases']:
+        if c['status'] != 200 or c['delivered'] is None:
+            res['tie_failures'].append({'note': 'a listener was not answered 200 with a list of events', 'case': c})
+        else:
+            cases.append(c)
+    if not cases:
+        return 0
+    S = Intern()
+    text = 'Definition lcases : list lcase := [\n%s\n].\n' % ';\n'.join(
+        ' (%d, %d, %s, %s)' % (c['level'], c['timeout'] or 0, coq.lst(c['triggered'], S), coq.lst(c['delivered'], S))
+        for c in cases)
+    if ctx.model_ok:
+        evals, hdr = ['bad_listen_model lcases', 'bad_listen_spec lcases'], HEADER
+    else:
+        evals, hdr = ['bad_listen_spec lcases'], HEADER.replace('C09.Run', 'C09.SpecRun')
+    (rc, lists, err), = coq.eval_shards(ctx.workdir, 'c09listen_%d' % _state.get('round', 0), hdr, [S.defs() + text], evals,
+                                        jobs=COQ_JOBS)
+    if rc != 0 or len(lists) != len(evals):
+        res['tie_failures'].append('coqc failed on the listen cases: %s' % err[-600:])
+        return len(cases)
+    bad_model, bad_spec = (lists if ctx.model_ok else ([], lists[0]))
+    for i in bad_model:
+        res['tie_failures'].append({'note': 'model of what GET /listen delivers differs from the implementation', 'case': cases[i]})
+    for i in bad_spec:
+        c = cases[i]
+        res['violations'].append({
+            'key': {'kind': 'listen-content', 'user': c['user'], 'timeout': c['timeout']},
+            'what': 'GET /api/listen%s as %s (level %d) while %s were triggered was answered the events %s: a listener must '
+                    'receive exactly the triggered events whose level (event_level_spec) is at most its own'
+                    % ('' if c['timeout'] is None else '?timeout=%d' % c['timeout'], c['user'], c['level'], c['triggered'],
+                       c['delivered']),
+            'case': dict(c, flags_on=data['flags_on'], phase='listen (real get_listen / sessions / PATCH /device, fresh process)'),
+            'expected': 'the triggered events permitted at level %d' % c['level'],
+            'observed': c['delivered'],
+        })
+    res['distribution']['listen_cases'] = len(cases)
+    if cases:
+        res['samples'].insert(0, {'listen': cases[0]})
+    return len(cases)
+
+
 def flag_sets(tr, defaults, mode, rng):
     names = tr['flags']
     base = frozenset(n for n in names if defaults[n])
@@ -1232,6 +1282,7 @@ def run(ctx, res, mode):
     n += evaluate_events(ctx, res, evcases)
     n += evaluate_auth(ctx, res, authcases)
     n += evaluate_state(ctx, res, state)
+    n += evaluate_listen(ctx, res, state)
     res['distribution']['password_configuration_cases'] = len(authcases)
     if state:
         res['distribution']['credential_histories'] = len(state['histories'])
@@ -1342,7 +1393,10 @@ def check(ctx, res):
         'with the real get/put/patch_device bodies: 16 curated + 40 (thorough 400) seeded random histories of up to 4 '
         'operations (set a password, PUT /device with the hub\'s own document, patch another attribute) by various callers '
         'from the factory state, each followed by 5 probes (one per minimum level) x 11 credentials (none, garbage, a token '
-        'of every user for every password 0..2, old and current)'
+        'of every user for every password 0..2, old and current); histories may contain a restart of the hub. Plus GET /listen '
+        'with its real body in the same process: a listener of each level x {default timeout, ?timeout=5, 45}, an admin event '
+        '(PATCH /device -> device-update) and a view-only event (full-update) triggered, one session tick; the delivered event '
+        'types are compared with the permitted ones'
     )
     run(ctx, res, 'thorough' if ctx.tier == 'thorough' else 'quick')
 
